@@ -41,6 +41,14 @@ integer-typed when integer-valued).
 Stream `translated`: meshes 1e3 .. 1e7 element sizes away from the origin (what an exact-rational model cannot see:
 formulas in absolute positions are equal over Q and cancel in binary64), with the metamorphic relation operator(translated
 mesh) = operator(mesh before the translation) (`C15_translation_invariant`).
+Stream `kernel-scale` (round 6): the ABSOLUTE length unit of the mesh together with the kernel options as the caller passes them
+(mostly the default alpha = 1): regular bricks in a length unit in which the nearest neighbours have kernel weights e^-E, E = 110,
+250, 400, 600 (1e-48 .. 1e-261; millimetre coordinates with 250 mm elements and kernel='exp': 1e-109).  The stream `scaled` divides
+alpha by the scale, so its weights never change.  The operator does not depend on the common factor of the weights of a vertex
+(`C15_row_weight_scale`); the determinant of its moment matrix does (`C15_det_underflow_counterexample`).  Oracle + live sequences.
+Held results (round 6, class D): in every history on one object (live sequences, stream same-object) every array RETURNED by an
+earlier call (the convenience function's array; data / row / col of the explicit matrices) is kept together with a bit-exact
+snapshot and compared after every later call (`Held`; `C15_held_results_stable`, `C15_work_array_counterexample`).
 """
 import itertools
 import math
@@ -54,7 +62,8 @@ from . import meshgen as MG
 PROP = 'C15'
 LEAN_MODULES = ['Femio.Props.C15']
 THEOREMS = ['C15_const_zero', 'C15_affine_exact', 'C15_convenience', 'det3_eq_det', 'C15_translation_invariant',
-            'C15_moment_expanded', 'C15_row_weight_scale', 'C15_integer_affine_field']
+            'C15_moment_expanded', 'C15_row_weight_scale', 'C15_integer_affine_field', 'C15_det_underflow_counterexample',
+            'C15_held_results_stable', 'C15_work_array_counterexample']
 PARTIAL = ['the weights w_ij (distance kernel exp / gauss x effective or mean volume) are inputs of the model, read back from '
            'the real call; the theorems hold for every weight function, so nothing about exp is needed',
            'floating point (np.linalg.inv, sqrt, cancellation) is runtime: the theorems are identities over a field; the exact '
@@ -70,7 +79,13 @@ PARTIAL = ['the weights w_ij (distance kernel exp / gauss x effective or mean vo
            'graded meshes: C15_row_weight_scale (operator rows are invariant under a common factor of the weights of a vertex, det M_i '
            'is not) is an identity over a field; a numerical threshold on det M_i relative to other vertices is seen by the oracle only. '
            'In the quick tier the exact model is skipped on graded meshes with more than 800 and on translated meshes with more than '
-           '1500 neighbour pairs (long rationals, 1-2 ms per pair); the oracle runs on all of them']
+           '1500 neighbour pairs (long rationals, 1-2 ms per pair); the oracle runs on all of them',
+           'size of the weights (stream kernel-scale): over Q nothing depends on it (C15_row_weight_scale); C15_det_underflow_counterexample '
+           'exhibits a vertex whose operator row is unchanged by weights of 1e-109 while det M_i drops below 1e-308 - what a closed form '
+           'adj / det does with that in binary64 is seen by the oracle only; the exact model is not run on this stream',
+           'results returned by earlier calls: C15_held_results_stable / C15_work_array_counterexample are statements about a model of '
+           'result ownership (a fresh array per call vs one work array), not about femio\'s code; the tie to the code is the oracle '
+           '(bit-exact snapshots of every returned array, compared after every later call on the same object)']
 RULE = ('conforming tet / hex bricks (1..2 or 1..3 cells per direction, optional voids) under a random rational affine '
         'map (sheared / graded) with optional per-node jitter, arbitrary node / element ids in ascending / descending / '
         'shuffled / looks-sorted storage order; 4 option combinations per mesh drawn without replacement from mode (nodal, '
@@ -119,6 +134,19 @@ RULE = ('conforming tet / hex bricks (1..2 or 1..3 cells per direction, optional
         'constant, affine with values of the size of the coordinates, affine centred at the mesh (evaluated over the rationals); '
         'plus the metamorphic relation operator(translated) = operator(before the translation). '
         'Streams order1 / scaled / translated run phase 2 as well (2-3 extra calls). '
+        'Stream kernel-scale: 4 (quick) / 12 regular bricks (cubes or their Kuhn split, optional voids, exact rotation (none, two '
+        'rational rotations), optional jitter of at most 1 / (8 E) of the cell size, ids / storage orders as everywhere) given in the '
+        'length unit for which the DEFAULT alpha = 1 gives the nearest neighbours of the lead graph (hex: nodal / elemental, tet: nodal; '
+        'kernel exp / gauss) the weight e^-E, E = 110, 250, 400, 600 (every E in every run; cell sizes 15 .. 600 coordinate units); 3 '
+        '(quick) / 4 option combinations per mesh: the lead with alpha = 1, the others (any mode, kernel exp / gauss, n_hop 1-3, with '
+        '/ without moment matrix and volume weighting) with alpha (3 significant digits) chosen for another E of the list on their own '
+        'graph; oracle on fresh objects + live sequence (changes of kernel / alpha / mode there draw another E). Rows whose largest '
+        'weight is below 1e-290 are outside; when the real call raises, the case is outside iff some vertex has a largest weight '
+        'below 1e-290 or a moment matrix (own geometry x the weights the real call had computed) with cond >= 1e6. '
+        'Held results (every live sequence and the stream same-object): the arrays returned by ALL earlier calls on the object '
+        '(convenience function; data / row / col of the three matrices) are kept as the caller keeps them, with bit-exact snapshots, '
+        'and compared after every later call; a held array that differs from its snapshot by more than the tolerance of the clause '
+        'convenience = matrices (1e-12 row scale x field scale) is a failure, changed bits within it an observation. '
         'Stream same-object: operator built (explicit matrices, convenience function or both), node positions of the SAME '
         'object replaced through the public setter (orientation-preserving rational affine map, no direction fixed), '
         'operator built again without clearing any cache; the property is evaluated against the new positions.')
@@ -161,6 +189,16 @@ ASSUMPTIONS = [
     'mesh storage: not drawn: float32 coordinate arrays (femio averages the element centres in float32: accuracy 1e-7 of the '
     "caller's own storage type, not asserted against the binary64 tolerance) and byte-swapped id arrays (pandas raises "
     '"Big-endian buffer not supported" inside ids2indices)',
+    'kernel-scale: the property is stated for every mesh and every kernel, hence for every length unit; it is asserted where binary64 '
+    'can represent the problem: vertices whose largest weight is >= 1e-290 and whose moment matrix (own geometry x the real weights) has '
+    'a finite condition number; tolerances as everywhere (conditioning-derived, relative). An exception of the real call counts as a '
+    'failure only if every vertex has a largest weight >= 1e-290 and cond(M_i) < 1e6 (otherwise the weights of some vertex have '
+    'underflowed: labelled stream). On the unchanged tree the largest observed error of the stream is within the same calibration '
+    'constant as the other streams',
+    'held results: an array returned by a convenience function / a matrix returned by calculate_spatial_gradient_adjacency_matrices '
+    'is the gradient (operator) for the field (options) of ITS call; the caller may keep it while making further calls. If a later '
+    'call changes it beyond the tolerance of the clause convenience = matrices it no longer equals the true gradient / the explicit '
+    'matrices applied by hand to its field: failure (earlier-result-modified)',
     'live sequences: a call that changes the data array it is given or the user data of the object (ids, coordinates, '
     'connectivity, user variables) changes the field / the mesh the three clauses are stated for, and is reported',
 ]
@@ -247,12 +285,20 @@ def real_matrices(fd, opt, n_vertices=None):
         return r
     fd.calculate_distance_kernel_adj = wk
     fd.calculate_data_adjs = wd
+    real_matrices.last_cap = cap          # (what was captured stays available when the call raises: _captured_weights)
     try:
         g = matrices_call(fd, opt, n_vertices)
     finally:
         del fd.calculate_distance_kernel_adj
         del fd.calculate_data_adjs
     n = g[0].shape[0]
+    W = _captured_weights(fd, opt, cap)
+    real_matrices.last_pairs = cap['pairs']
+    return g, W, n
+
+
+def _captured_weights(fd, opt, cap):
+    """the weights w_ij (kernel x volume) of the real call, as exact rationals, from what the wrappers captured"""
     adj = nhop(fd, opt).tocoo()
     vol = [r for s, r in cap['d'] if len(s) == 2 and s[1] == 1]
     if opt['consider_volume'] and vol:
@@ -270,8 +316,7 @@ def real_matrices(fd, opt, n_vertices=None):
     else:
         W = V
     cap['pairs'] = {(int(i), int(j)) for i, j, x in zip(adj.row, adj.col, adj.data) if x != 0 and i != j}
-    real_matrices.last_pairs = cap['pairs']
-    return g, W, n
+    return W
 
 
 DEFAULTS = {'n_hop': 1, 'kernel': None, 'moment_matrix': False, 'consider_volume': True, 'use_effective_volume': True,
@@ -542,6 +587,33 @@ def conditioning(m, opt, W, n):
     return cond, np.maximum(kappa, 1.)
 
 
+TINY_FLOOR = 1e-290          # below: (nearly) subnormal weights - outside what binary64 supports (stream kernel-scale)
+
+
+def row_wmax(W, n):
+    """per vertex the largest weight w_ij the real call used"""
+    out = np.zeros(n)
+    for (i, j), v in W.items():
+        if i != j and i < n and j < n:
+            out[i] = max(out[i], abs(float(v)))
+    return out
+
+
+def well_weighted(fd, m, opt, n):
+    """after the real call raised (stream kernel-scale): True / False = every vertex has a largest weight >= TINY_FLOOR and a
+    moment matrix (own geometry x the weights the real call had computed before it raised) with cond < 1e6 / not so;
+    None = the call raised before it computed the kernel weights (nothing to do with their size)"""
+    cap = getattr(real_matrices, 'last_cap', None)
+    if not cap or (opt['kernel'] is not None and 'k' not in cap):
+        return None
+    try:
+        W = _captured_weights(fd, opt, cap)
+        cond, _ = conditioning(m, opt, W, n)
+        return bool(np.isfinite(cond).all() and cond.max() < 1e6 and (row_wmax(W, n) >= TINY_FLOOR).all())
+    except Exception:
+        return None
+
+
 def carriers_exact(m, opt):
     """exact positions of every row the convenience function expects data for"""
     return [p for _, p in m['nodes']] if opt['mode'] == 'nodal' else positions_exact(m, 'elemental')
@@ -751,6 +823,11 @@ def _evaluate(ctx, m, opt, fields, fd=None, settle=False, origin=None):
             # the float moment matrix is numerically singular.  Not "a mesh whose vertex neighbourhoods span space"
             # in any robust sense: separate labelled stream, never a failure.
             return fails, {'singular': True, 'raised': type(e).__name__, 'near_degenerate': True}, out
+        if opt.get('tiny') and well_weighted(fd, m, opt, len(span)) is False:
+            # stream kernel-scale: the kernel weights of some vertex have underflowed (largest weight below 1e-290) or leave its
+            # moment matrix ill-conditioned (cond >= 1e6; own geometry x the weights the real call computed): binary64 cannot
+            # represent the problem any more.  Separate labelled stream, never a failure.
+            return fails, {'singular': True, 'raised': type(e).__name__, 'weights_underflow': True}, out
         fails.append((f'raises:{type(e).__name__}', f'operator construction raises {e!r} on a mesh whose neighbourhoods all span space', {}))
         return fails, {'singular': True, 'raised': type(e).__name__}, out
     G = dense3(g)
@@ -762,14 +839,24 @@ def _evaluate(ctx, m, opt, fields, fd=None, settle=False, origin=None):
     finite_rows = np.isfinite(G).all(axis=(0, 2))
     spanning = np.array(span, bool)
     inscope = finite_rows & np.isfinite(cond) & (spanning if opt['moment'] else True)
+    if opt.get('tiny'):
+        # rows whose largest weight is (nearly) subnormal are outside: the weights themselves have lost their bits
+        wmax = row_wmax(W, n)
+        inscope = inscope & (wmax >= TINY_FLOOR)
+        out['wmax'] = wmax
     condf = np.where(np.isfinite(cond), cond, 1.)
     rowabs = np.abs(np.where(np.isfinite(G), G, 0)).sum(axis=2).max(axis=0)      # (n,)
     info = {'n': n, 'span_all': bool(all(span)), 'n_nonspanning': int(n - sum(span)), 'max_cond': float(condf[inscope].max()) if inscope.any() else 1.0,
             'max_kappa': float(kappa.max())}
+    if opt.get('tiny'):
+        with np.errstate(all='ignore'):
+            info['tiny'] = {'smallest row-maximum of the weights': float(wmax.min()) if n else None,
+                            'largest row-maximum of the weights': float(wmax.max()) if n else None,
+                            'rows in scope': int(inscope.sum()), 'rows': int(n)}
     if opt['moment'] and (spanning & finite_rows & ~np.isfinite(cond)).any():
         info['rows_singular_in_binary64'] = int((spanning & finite_rows & ~np.isfinite(cond)).sum())
     # clause 1: constants -> 0 (every variant); vertices of a non-spanning neighbourhood carry inf/nan and are skipped
-    if not opt['moment'] and not finite_rows.all():
+    if not opt['moment'] and not (finite_rows | ((wmax < TINY_FLOOR) if opt.get('tiny') else False)).all():
         fails.append((f'nonfinite:{opt["mode"]}', 'operator without moment matrix has non-finite entries',
                       {'rows': np.where(~finite_rows)[0].tolist()[:5]}))
     gc = g
@@ -1215,6 +1302,84 @@ def translated(m, T, unit=F(1)):
     return out
 
 
+# --- stream kernel-scale: the ABSOLUTE length unit of the mesh together with the kernel options (round 6).  The stream `scaled`
+# divides alpha by the scale, so that the kernel weights never change; here alpha is what the caller passes (mostly the default
+# 1.0) and the mesh is given in a length unit in which alpha d (exp) resp. alpha d^2 / 2 (gauss) of the NEAREST neighbours is
+# E = 110 .. 600, i.e. the largest weights of a vertex are e^-E = 1e-48 .. 1e-261 (millimetre coordinates with 250 mm elements and
+# kernel='exp': 1e-109).  The operator row of a vertex does not depend on the common factor of its weights
+# (`C15_row_weight_scale`), det M_i is multiplied by its cube (below 1e-308 from weights of 1e-103 on: `C15_det_underflow_counterexample`).
+TINY_EXPONENTS = [250, 400, 600, 110]
+ROTATIONS = [[[F(1), F(0), F(0)], [F(0), F(1), F(0)], [F(0), F(0), F(1)]],
+             [[F(2, 3), F(-1, 3), F(2, 3)], [F(2, 3), F(2, 3), F(-1, 3)], [F(-1, 3), F(2, 3), F(2, 3)]],
+             [[F(2, 7), F(3, 7), F(6, 7)], [F(3, 7), F(-6, 7), F(2, 7)], [F(6, 7), F(2, 7), F(-3, 7)]]]          # exact rotations
+
+
+def own_neighbours(m, mode):
+    """the 1-hop graph by its definition (own computation): nodal = nodes sharing an element, elemental = elements sharing a node"""
+    (t, rows), = m['blocks'].items()
+    if mode == 'nodal':
+        index = {i: k for k, (i, _) in enumerate(m['nodes'])}
+        groups = [[index[x] for x in c] for _, c in rows]
+        nb = [set() for _ in m['nodes']]
+    else:
+        by_node = {}
+        for k, (_, c) in enumerate(rows):
+            for x in c:
+                by_node.setdefault(x, []).append(k)
+        groups = list(by_node.values())
+        nb = [set() for _ in rows]
+    for ks in groups:
+        for a in ks:
+            nb[a].update(ks)
+    for k, s_ in enumerate(nb):
+        s_.discard(k)
+    return nb
+
+
+def nearest_distance(m, mode):
+    """max over the graph vertices of the distance to their nearest 1-hop neighbour (None when a vertex has no neighbour)"""
+    P = np.array([[float(x) for x in p] for p in positions_exact(m, mode)])
+    nb = own_neighbours(m, mode)
+    if not all(nb):
+        return None
+    return max(min(float(np.linalg.norm(P[j] - P[k])) for j in nb[k]) for k in range(len(nb)))
+
+
+def sig3(x):
+    return float(f'{x:.3g}')
+
+
+def tiny_alpha(kernel, d, E):
+    """alpha (3 significant digits) for which the kernel weight at distance d is about e^-E"""
+    return sig3(E / d if kernel == 'exp' else 2 * E / d ** 2)
+
+
+def gen_kernel_scale(rnd, kind, lead_mode, lead_kernel, E):
+    """regular brick (cubes of one size, or their Kuhn split; optional voids) under an exact rotation, optionally with a jitter of
+    at most 1 / (8 E) of the cell size (so that the weights of the equidistant nearest neighbours stay within e^(+-1/4) of each
+    other and the moment matrices well conditioned), in the length unit for which the DEFAULT alpha = 1 gives the nearest
+    neighbours of the lead graph the kernel weight e^-E; ids / storage orders as everywhere.  Returns (mesh, nearest distance per mode)"""
+    while True:
+        m = MG.gen_geometric(rnd, kind=kind, max_cells=3, jitter=False, voids=rnd.random() < .25, unref=False, affine=False)
+        ext = [max(p[k] for _, p in m['nodes']) - min(p[k] for _, p in m['nodes']) for k in range(3)]
+        if len(m['blocks']) == 1 and 18 <= len(m['nodes']) <= 64 and (lead_mode == 'nodal' or min(ext) >= 2) \
+                and nearest_distance(m, 'elemental') is not None:
+            break
+    R = rnd.choice(ROTATIONS)
+    jit = rnd.random() < .5
+    d_unit = nearest_distance(m, lead_mode)
+    h = E / d_unit if lead_kernel == 'exp' else (2 * E) ** .5 / d_unit
+    s = F(sig3(h)).limit_denominator(1000)
+    nodes = []
+    for i, p in m['nodes']:
+        q = tuple(x + (F(rnd.randint(-2, 2), 16 * E) if jit else 0) for x in p)
+        nodes.append((i, tuple(F(float(s * sum(R[r][c] * q[c] for c in range(3)))) for r in range(3))))
+    out = dict(m)
+    out.update(nodes=nodes, jittered=jit, affine=R is not ROTATIONS[0])
+    out['kernel_scale'] = {'cell size': float(s), 'rotated': R is not ROTATIONS[0], 'jitter': 'at most 1 / (8 E) of the cell size' if jit else 'none'}
+    return out, {mode: nearest_distance(out, mode) for mode in ('nodal', 'elemental')}
+
+
 # --- live sequences: every option combination of a mesh on ONE object
 
 USER_NODAL, USER_ELEMENTAL = 'user_nodal_field', 'user_elemental_field'
@@ -1239,6 +1404,57 @@ def user_snapshot(fd):
     snap['elemental variable'] = (np.asarray(fd.elemental_data.get_attribute_data(USER_ELEMENTAL)).tobytes()
                                   if USER_ELEMENTAL in fd.elemental_data else None)
     return snap
+
+
+class Held:
+    """class D of the lessons: every array RETURNED by an earlier call on an object (the array of the convenience function; data /
+    row / col of the three explicit matrices) is kept - the very object, as a caller keeps it - together with a bit-exact
+    snapshot, and compared after every later call.  A held array that no longer equals its snapshot within the tolerance of the
+    clause 'convenience = explicit matrices' (1e-12 row scale x field scale; index arrays: exactly) no longer holds the gradients
+    that were returned for ITS field: failure.  Bits changed within that tolerance: counted as an observation only."""
+
+    def __init__(self):
+        self.items = []
+
+    def add(self, step, arr, what, tol):
+        if isinstance(arr, np.ndarray) and arr.size:
+            self.items.append({'step': step, 'what': what, 'array': arr, 'bytes': arr.tobytes(), 'copy': arr.copy(), 'tol': tol})
+
+    def add_out(self, step, out):
+        """what one evaluated step (`_evaluate`) got back from femio"""
+        if out.get('conv') is not None and out.get('shape_ok'):
+            self.add(step, out['conv'], 'array returned by the convenience function',
+                     1e-12 * np.maximum(out['rowabs'], 1e-300)[:, None, None] * out['colscale'][None, None, :])
+        for axis, x in zip('xyz', out.get('g') or ()):
+            for part in ('data', 'row', 'col'):
+                a = getattr(x, part, None)
+                if isinstance(a, np.ndarray) and a.size:
+                    with np.errstate(all='ignore'):
+                        big = float(np.nanmax(np.abs(np.where(np.isfinite(a), a, 0)))) if part == 'data' else 0.
+                    self.add(step, a, f'.{part} of the explicit {axis} matrix', 1e-12 * big)
+
+    def check(self, step, ctx=None):
+        fails = []
+        for it in self.items:
+            a = it['array']
+            if a.tobytes() == it['bytes']:
+                continue
+            with np.errstate(all='ignore'):
+                same = (a == it['copy']) | (np.abs(a - it['copy']) <= it['tol'])
+                if a.dtype.kind == 'f':
+                    same = same | (np.isnan(a) & np.isnan(it['copy']))
+            if np.all(same):
+                if ctx is not None:
+                    ctx.count('held results:bits changed within the tolerance (observation only)')
+                continue
+            with np.errstate(all='ignore'):
+                d = float(np.nanmax(np.abs(a.astype(float) - it['copy'].astype(float))))
+            fails.append((f'earlier-result-modified:{"convenience" if "convenience" in it["what"] else "matrices"}',
+                          f'the {it["what"]} at step {it["step"]} - still held by the caller - was changed by the call of step {step}: '
+                          f'it no longer holds the gradients that were returned', {'returned at step': it['step'], 'changed by step': step,
+                                                                                  'maxdiff': d, 'entries changed': int((~same).sum())}))
+            break
+        return fails
 
 
 def change_one(rnd, m, opt):
@@ -1281,7 +1497,17 @@ def change_one(rnd, m, opt):
         cur = opt.get('normals', 'absent')
         vals = [None, False, ['array', rnd.randint(0, 999)]] + ([True] if opt['mode'] == 'nodal' else [])
         out['normals'] = rnd.choice([v for v in vals if v != cur])
-    if k in ('kernel', 'alpha'):
+    if opt.get('tiny') and k in ('kernel', 'alpha', 'mode'):
+        # stream kernel-scale: alpha in units of the nearest-neighbour distance of the graph in question: the weight of the
+        # nearest neighbours is e^-E with another E of the list (1.0 = the default, whatever E it gives, when it keeps E <= 650)
+        if out['kernel'] is not None:
+            d = opt['tiny']['d'][out['mode']]
+            E = rnd.choice([e for e in TINY_EXPONENTS if e != opt['tiny'].get('E')])
+            e1 = d if out['kernel'] == 'exp' else d * d / 2
+            out['alpha'] = 1.0 if 100 <= e1 <= 650 and rnd.random() < .5 else tiny_alpha(out['kernel'], d, E)
+            out['tiny'] = {**opt['tiny'], 'E': round(out['alpha'] * e1)}
+        out.pop('alpha_unit', None)
+    elif k in ('kernel', 'alpha'):
         out['alpha'] = min(out.get('alpha_unit', unit_alpha), 2.0 if out['kernel'] == 'gauss' else 9.) \
             / opt.get('length', 1.) ** (2 if out['kernel'] == 'gauss' else 1)
     out['changed'] = k
@@ -1330,8 +1556,13 @@ def run_sequence(ctx, m, steps, fields, ref=None, count=True):
     snap0 = user_snapshot(live)
     info = {}
     nf = len(fields)
+    held = Held()
     for k, opt in enumerate(steps):
         fails, info, out = _evaluate(ctx, m, opt, fields, fd=live)
+        fails += held.check(k, ctx if count else None)
+        if count and held.items:
+            ctx.count('sequence:arrays returned by earlier calls compared bit for bit after a later call', len(held.items))
+        held.add_out(k, out)
         changed = [name for name, v in user_snapshot(live).items() if v != snap0.get(name)]
         if changed:
             fails.append((f'user-data-modified:{changed[0].split(" (")[0]}', f'the call changed the {", ".join(changed)} of the object', {}))
@@ -1389,7 +1620,7 @@ def sequence_case(ctx, m, opts, fields, ref, n_extra, stream):
                                'the last step fails'}
         fresh_bad = ref.get(semkey(steps[k]), {}).get('fresh_fails')
         for sig, what, obs in fails:
-            if fresh_bad and not sig.startswith(('differs', 'matrices-differ', 'user-data', 'argument')):
+            if fresh_bad and not sig.startswith(('differs', 'matrices-differ', 'user-data', 'argument', 'earlier-result')):
                 continue            # the same option already fails on a fresh object: reported there with the simpler replay
             ctx.fail('sequence:' + sig, f'step {k} of a sequence of calls on one object ({steps[k].get("changed", "next option combination")}): ' + what,
                      caseinfo, obs)
@@ -1405,16 +1636,20 @@ def history_case(ctx, m, m2, opt0, opt, fields, record=True):
     see `settle` in _evaluate)."""
     fd = fresh(m)
     first = opt0.get('first', 'matrices')
+    held = Held()          # what the first call(s) returned stays in the caller's hands (it belongs to the OLD positions)
     try:
         if first in ('matrices', 'both'):
-            matrices_call(fd, opt0)
+            held.add_out(0, {'g': matrices_call(fd, opt0)})
         if first in ('convenience', 'both'):
             P0, _ = carriers(m, opt0)
-            conv_call(fd, opt0, field_matrix(m, opt0, fields, P0))
+            r0 = conv_call(fd, opt0, field_matrix(m, opt0, fields, P0))
+            with np.errstate(all='ignore'):
+                held.add(0, r0, 'array returned by the convenience function', 1e-12 * float(np.nanmax(np.abs(np.where(np.isfinite(r0), r0, 0)))))
     except Exception as e:      # singular first geometry: the history still continues on the same object
         ctx.count(f'stream:same-object:first call raised {type(e).__name__}')
     set_positions(fd, m2)
     fails, info = oracle(ctx, m2, opt, fields, fd=fd, settle=bool(opt['consider_volume']))
+    fails += held.check(1, ctx if record else None)
     fails = [('same-object:' + sig, 'after `nodes.data = new positions` on the same object: ' + what, obs)
              for sig, what, obs in fails]
     if not record:
@@ -1497,7 +1732,18 @@ def one_case(ctx, m, opt, fields, origin=None, model=True):
     for sig, what, obs in fails:
         ctx.fail(sig, what, caseinfo, obs)
     ref = {'conv': out.get('conv'), 'G': out.get('G'), 'fresh_fails': bool(fails)}
-    if not model:
+    if opt.get('tiny'):
+        ctx.count('stream:kernel-scale:' + ('weights underflowed / moment matrix ill-conditioned (real raised; outside the quantifier)'
+                                            if info.get('weights_underflow') else 'evaluated'))
+        t = info.get('tiny')
+        if t and t['rows']:
+            ctx.count('stream:kernel-scale:rows in scope', t['rows in scope'])
+            ctx.count('stream:kernel-scale:rows outside (weights (nearly) subnormal, cond not finite, neighbourhood not spanning)', t['rows'] - t['rows in scope'])
+            if t['smallest row-maximum of the weights'] and t['smallest row-maximum of the weights'] > 0:
+                ctx.count(f'stream:kernel-scale:largest weight of the worst vertex ~1e{round(math.log10(t["smallest row-maximum of the weights"]) / 50) * 50} (nearest 1e50)')
+    if not model and opt.get('tiny'):
+        ctx.count('stream:oracle only (kernel-scale: the exact model is invariant under the size of the weights)')
+    elif not model:
         ctx.count('stream:oracle only (further option combinations on graded meshes)')
     elif ctx.quick and len(out.get('W', ())) > (MODEL_MAX_PAIRS_GRADED if m.get('graded') else MODEL_MAX_PAIRS_TRANSLATED
                                                 if origin is not None else MODEL_MAX_PAIRS):
@@ -1513,7 +1759,7 @@ def one_case(ctx, m, opt, fields, origin=None, model=True):
     return ref
 
 
-def mesh_cases(ctx, m, opts, fields, n_extra, stream, origin=None, oracle_only=()):
+def mesh_cases(ctx, m, opts, fields, n_extra, stream, origin=None, oracle_only=(), model=True):
     """all option combinations drawn for one mesh: first each on its own freshly built object (oracle, model), then all of
     them - with value-only changes and repeats in between - one after another on ONE live object.  `oracle_only`: further
     option combinations evaluated on their own freshly built object by the oracle alone (no model, not in the sequence)"""
@@ -1521,7 +1767,7 @@ def mesh_cases(ctx, m, opts, fields, n_extra, stream, origin=None, oracle_only=(
     ref = {}
     for opt in opts:
         opt['fseed'] = fseed          # the same data for every call on this mesh, so that results are comparable
-        ref[semkey(opt)] = one_case(ctx, m, opt, fields, origin=origin)
+        ref[semkey(opt)] = one_case(ctx, m, opt, fields, origin=origin, model=model)
     for opt in oracle_only:
         opt['fseed'] = fseed
         one_case(ctx, m, opt, fields, origin=origin, model=False)
@@ -1684,6 +1930,37 @@ def run(ctx):
         ctx.count('stream:order1-mean-volume(observation only):ok')
     except Exception as e:
         ctx.count(f'stream:order1-mean-volume(observation only):real raised {type(e).__name__}')
+    # stream kernel-scale (round 6): the absolute length unit of the mesh x the kernel options as the caller passes them (mostly the
+    # DEFAULT alpha): nearest-neighbour kernel weights e^-E, E = 110, 250, 400, 600 (every E in every run as the lead of a mesh);
+    # further option combinations on the same mesh with alpha chosen for another E of the list.  Inside the quantifier ('any
+    # distance kernel', 'every mesh'): millimetre coordinates with 250 mm elements and kernel='exp' give weights of 1e-109.
+    # Oracle only (over Q nothing depends on the size of the weights: C15_row_weight_scale), with the live sequences.
+    exps = TINY_EXPONENTS[:]
+    rnd.shuffle(exps)
+    for k in range(ctx.n(4, 12)):
+        E = exps[k % len(exps)]
+        kind = ['hex', 'tet', 'hex'][k % 3]
+        lead_mode = 'nodal' if kind == 'tet' else ['nodal', 'elemental'][(k // 2) % 2]
+        lead_kernel = ['exp', 'gauss'][(k + k // 4) % 2]
+        m, dist = gen_kernel_scale(rnd, kind, lead_mode, lead_kernel, E)
+        n_meshes += 1
+        opts = []
+        for j in range(ctx.n(3, 4)):
+            mode = lead_mode if j == 0 else rnd.choice(['nodal', 'nodal', 'elemental'] if kind == 'tet' else ['nodal', 'elemental'])
+            kernel = lead_kernel if j == 0 else rnd.choice(['exp', 'gauss'])
+            Ej = E if j == 0 else rnd.choice([e for e in TINY_EXPONENTS if e != E])
+            o = next(gen_opts(ctx, [(mode, rnd.choice([1, 1, 2, 3]), kernel, j < 2 or rnd.random() < .5)]))
+            o['alpha'] = 1.0 if j == 0 else tiny_alpha(kernel, dist[mode], Ej)
+            o['consider_volume'] = rnd.random() < .4
+            o['scale'] = 'kernel-scale'
+            o['tiny'] = {'d': dist, 'E': round(o['alpha'] * (dist[mode] if kernel == 'exp' else dist[mode] ** 2 / 2))}
+            if semkey(o) not in {semkey(x) for x in opts}:
+                opts.append(o)
+            ctx.count(f'stream:kernel-scale:cases:kernel={kernel}:alpha={"default" if o["alpha"] == 1.0 else "chosen"}:-ln(nearest weight)~{Ej}')
+        ctx.count(f'stream:kernel-scale:meshes:{kind}:lead {lead_mode} {lead_kernel} E={E}')
+        fields = gen_fields(rnd)
+        fields[1]['b'] *= m['kernel_scale']['cell size']
+        mesh_cases(ctx, m, opts, fields, ctx.n(2, 3), 'kernel-scale', model=False)
     ctx.extra['meshes'] = n_meshes
 
 
